@@ -185,6 +185,32 @@ CHECKS["C15"] = dict(
          "as frame violations (writes to shared containers) or by the bounded native history run.",
     technique=_T + "; bounded native history comparison")
 
+CHECKS["C12"] = dict(
+    category="exploration",
+    text="The real candidates_from_bank_code and from_bank_code are executed symbolically (pyvc) on registry groups / "
+         "candidate lists of bounded size (<= 3 quick, <= 4 thorough) with SYMBOLIC BIC texts and primary flags and "
+         "proved to implement: candidates = non-empty BICs, primary first, order kept; choice = an 8-character candidate "
+         "if any, else one with branch XXX, else the first; no candidate -> InvalidBankCode. The bundled registry is "
+         "evaluated exhaustively: all 22,753 keys, 7,769 BICs, unlisted pairs, IBAN-side accessors, build_index == "
+         "grouping spec, invertibility.",
+    design_ref="DESIGN.md C12",
+    note="Bounded in the group size (the abstract-list proof with loop invariants of the design is not built); "
+         "exhaustive for the data this tree bundles. sorted() assumed stable.",
+    technique="contract-based verification of the real lookup bodies on bounded-size symbolic groups (pyvc, z3) + "
+              "exhaustive evaluation of the lookup contract on the bundled registry")
+CHECKS["C13"] = dict(
+    category="proof",
+    text="Per country x registry mode x pinned subset (698 variants): the real BBAN.random is executed with the caller's "
+         "generator replaced by an oracle under assumed contracts (choice returns a member; xeger returns a full match "
+         "of the live pattern) and the registry group abstracted to an arbitrary well-formed entry; every returning path "
+         "is proved to yield a structure-conforming BBAN of the country with the pins unchanged and the chosen bank's "
+         "code in place; the only error is the documented overflow; the call tree has no other source of nondeterminism. "
+         "Cross-process / hash-seed reproducibility: bounded runs in fresh processes.",
+    design_ref="DESIGN.md C13",
+    note="Assumed contracts of random/rstr; retry loop as one generic iteration; pins of exactly the field width; "
+         "validity of IBAN.random by composition with C02; hash-seed clause bounded.",
+    technique=_T + "; bounded subprocess runs for the hash-seed clause")
+
 NOT_YET = {}
 
 ALL = [f"C{i:02d}" for i in range(1, 19)]
